@@ -56,7 +56,9 @@ class Ctx:
 
     def coq(self, sources, timeout=900):
         t = time.time()
-        outs = common.coq_eval(sources, timeout=timeout)
+        # soft limits (see common.coq_eval): tight on the quick tier, generous on the thorough tier where many files run side by side
+        quick = self.tier == "quick"
+        outs = common.coq_eval(sources, timeout=timeout, soft=60 if quick else 480, line_timeout=30 if quick else 180)
         self.dist["t_coq_s"] += round(time.time() - t, 1)
         t = time.time()
         r = [common.parse_coq_values(o) for o in outs]
